@@ -119,6 +119,7 @@ def part_from_map(chk, ex):
         ('u64', {'y': ('one', ny)}, Ty('struct', [('y', Ty('u64'))])),
         ('i8', {'y': ('one', ny)}, Ty('struct', [('y', Ty('i8'))])),
         ('u16+i32', {'y': ('one', ny), 'x': ('one', ny)}, Ty('struct', [('x', Ty('u16')), ('y', Ty('i32'))])),
+        ('undeclared-keys-before', {'a_extra': ('one', s1), 'b_extra': ('one', s2), 'x': ('one', sx)}, Ty('struct', [('x', Ty('string'))])),
         ('wildcard', {'r': ('many', [s1, s2]), 'x': ('one', sx)}, Ty('struct', [('x', Ty('string')), ('r', Ty('seq', Ty('string')))])),
         ('empty-wildcard', {'r': ('many', [])}, Ty('struct', [('r', Ty('seq', Ty('string')))])),
         ('option', {'x': ('one', sx)}, Ty('struct', [('x', Ty('option', Ty('string')))])),
@@ -155,6 +156,11 @@ def part_from_map(chk, ex):
                 else:
                     m = chk.prove(f'from_map/{name}/refused-only-for-shape-mismatch', pc, z3.BoolVal(not mismatch_shape))
                 if m is not None and name in c10.SCALAR_SLOT: c10.report_scalar(chk, m, name, ny, f'from_map refuses an in-range {name} path variable')
+                elif m is not None and name == 'undeclared-keys-before':
+                    case = {'op': 'whichpage', 'shape': 'extra+other', 'len': 40}
+                    nat = replay([case])[0]
+                    chk.counterexample(f'from_map refuses / loses a declared field when undeclared keys sort before it: {r} -> native first-page request {nat}', case,
+                                       not nat.get('as_specified', False), role='from_map:' + name)
                 elif m is not None: chk.mismatches.append(f'from_map refuses well-typed variables ({name}): {r}')
                 continue
             n_ok += 1
